@@ -32,8 +32,11 @@ EXTENDS Integers, Sequences, FiniteSets, TLC, Json, IOUtils, XData
      BpCands  candidate breakpoint addresses (statement rows), for generation
      ExitCode native exit status
      Entry    set of addresses the debugger may keep patched for itself (entry point)
+     TailPos  first position of the puppet's final report (from there on the program calls into std and
+              step commands are not judged)
    as plain definitions, so that TLC evaluates them once. *)
-CONSTANTS MaxCmd, MaxBps, MaxBk
+CONSTANTS MaxCmd, MaxBps, MaxBk,
+          Lifecycle     \* TRUE: histories may restart and quit (C11)
 
 N == Len(X)
 Exited == N + 1
